@@ -147,6 +147,16 @@ def run(ctx):
                 res.violations.append(vlib.Violation("a missing %s object did not make the run fail" % sc.objects[x]["kind"], {"object": sc.oids[x].hex()},
                                                      expected="non-zero exit, empty stdout", observed={"rc": rc, "stdout": out[:200].decode("latin1")}))
         expect_fail("shallow repository", extra={"shallow_path": "/proc/self/status"})
+        # ... whatever the marker file holds (git decides by its presence): empty, one entry without its LF, a symbolic link
+        for label, content in (("an empty shallow file", b""), ("a shallow file whose only entry lacks the LF", b"1" * 40), ("a blank-only shallow file", b"\n")):
+            mp = os.path.join(eng.scratch, "marker-%d" % len(content))
+            with open(mp, "wb") as f:
+                f.write(content)
+            expect_fail("shallow repository: " + label, extra={"shallow_path": mp})
+            lp = mp + ".link"
+            if not os.path.lexists(lp):
+                os.symlink(mp, lp)
+            expect_fail("shallow repository: a symbolic link to " + label, extra={"shallow_path": lp})
         expect_fail("not a git repository", extra={"gitdir": "!"})
         expect_fail("unresolvable ROOT", args=["--json", "no-such-rev"])
         for bad in (["--threshold=abc"], ["--names=short"], ["--json", "--json-version=3"], ["--json-version=7"], ["--bogus-flag"],
@@ -212,6 +222,8 @@ def run(ctx):
                         cls="json-write-error-ignored" if "--json" in fmt else None))
         expect_fail("invalid regexp in refgroup", config=[("refgroup.x.includeregexp", "(")], args=[])
         expect_fail("refgroup without rules", config=[("refgroup.x.name", "X")], args=[])
+        expect_fail("refgroup that exists only through a setting git-sizer does not know", config=[("refgroup.omega.description", "text")], args=[])
+        expect_fail("such a refgroup next to a proper one", config=[("refgroup.mine.include", "refs/heads"), ("refgroup.omega.url", "x")], args=["--json"])
     finally:
         eng.close()
     res.coverage_extra["input_distribution"] = outcomes
